@@ -6,7 +6,8 @@ set -u
 ID=$1; M=$2; DEST=$3; shift 3
 W=/tmp/confirm; D=/verif/seeded/$ID/$M
 cd $W && git checkout -q -- . && git clean -fdq -e target
-cp $D/demo.rs $W/$DEST
+cp $D/${DEMO:-demo.rs} $W/$DEST
+for pair in ${EXTRA:-}; do mkdir -p $(dirname $W/${pair##*=}); cp $D/${pair%%=*} $W/${pair##*=}; done
 if [ -n "${MODLINE:-}" ]; then echo "$MODLINE" >> $W/$MODFILE; fi
 run() { (cd $W && CARGO_NET_OFFLINE=true timeout 1500 cargo test --offline "$@" 2>&1 | grep -E "^test result|^test .*(ok|FAILED)$|panicked|error(\[|:)" | head -12); }
 echo "--- without patch" > $D/confirmed.txt; run "$@" >> $D/confirmed.txt
